@@ -15,7 +15,7 @@ from . import series_common as sc
 
 ID = "C19"
 PROPS = "props/C19.v"
-GENERATED = [tr.OUT, tr.OUT4]
+GENERATED = [tr.OUT, tr.OUT4, tr.OUT5]
 CASE_DEPS = ["lib/CaseUtil.vo", "lib/DbCase.vo", "model/Databox.vo", "model/Slate.vo", "model/Csv.vo"]
 ALLOWED_AXIOMS: set = set()
 TRUSTED = [
@@ -785,7 +785,26 @@ def rand_periods(rng, lo, hi) -> list:
         l = l[::-1]
     elif q < 0.24 and l:
         l = l + [l[0]]
+    elif q < 0.32:                       # round 5: a Span with a larger step, ascending or descending
+        l = l[::rng.choice([3, 4, -2, -3])]
+    elif q < 0.42 and l:                 # round 5: hand-picked periods, in order or not
+        l = rng.sample(l, rng.randint(1, len(l)))
+        if rng.random() < 0.6:
+            l.sort()
     return l
+
+
+def _periods_shape(l) -> str:
+    if len(l) <= 1:
+        return "empty" if not l else "single"
+    d = [b - a for a, b in zip(l, l[1:])]
+    if len(set(l)) < len(l):
+        return "with-repeated-period"
+    if all(x == 1 for x in d):
+        return "contiguous"
+    if len(set(d)) == 1:
+        return "stepped" if d[0] > 0 else "descending" if d[0] == -1 else "descending-stepped"
+    return "hand-picked" if all(x > 0 for x in d) else "hand-picked-unordered"
 
 
 def gen_csv_case(rng) -> dict:
@@ -1069,6 +1088,8 @@ def correspondence(ctx) -> CorrResult:
         _bump(d["options"], "names" if case["names"] is not None else "all-names")
         _bump(d["options"], "span" if case["span"] else "frequency_span" if case["fspan"] else "default-span")
         _bump(d["options"], "description_row" if case["desc"] else "no-description_row")
+        for l_ in ([case["span"][1]] if case["span"] else [l_ for _, l_ in (case["fspan"] or []) if l_ is not None]):
+            _bump(d.setdefault("selected_periods", {}), _periods_shape(l_))
         ne = sum(1 for _, it_ in case["db"] if it_["k"] == "ser" and it_["start"] is None)
         nd = sum(1 for _, it_ in case["db"] if it_["k"] == "ser" and it_["start"] is not None)
         _bump(d.setdefault("empty_series", {}), "none" if not ne else "only-empty-series" if not nd else "with-empty-series")
@@ -1636,6 +1657,7 @@ def falsify(ctx, hints):
             break
 
     _falsify_round4(ctx, rng, add, info, fails)
+    _falsify_round5(ctx, rng, add, info, fails)
     return fails, info
 
 
@@ -1896,6 +1918,243 @@ def _falsify_round4(ctx, rng, add, info, fails):
             elif inp["description_row"] and y.get_description() != x.get_description():
                 add(f"csv:description:{shape}", f"description of {nm!r} differs after the CSV round trip", inp,
                     y.get_description(), x.get_description(), repro)
+        if len(fails) > 12:
+            return
+
+
+
+# ---------------------------------------------------------------------- round 5: exports on selected spans
+
+_SPAN_KINDS = ["default", "contiguous", "contiguous", "stepped", "stepped", "descending", "descending-stepped",
+               "hand-picked", "hand-picked", "hand-picked-unordered"]
+
+
+def _f_selected_periods(rng, f, lo, hi):
+    """(kind, serials, how the argument is passed) for one frequency whose data lie in lo..hi: a span that is not
+    necessarily a run of consecutive increasing periods (no period twice: a sheet with a repeated date is not the
+    image of a databox)."""
+    kind = rng.choice(_SPAN_KINDS)
+    a = lo + rng.randint(-3, 3)
+    b = max(a, hi + rng.randint(-3, 3))
+    if kind == "default":
+        return kind, None, "..."
+    if kind == "contiguous":
+        return kind, list(range(a, b + 1)), rng.choice(["Span", "tuple"])
+    if kind == "stepped":
+        step = rng.choice([2, 2, 3, 4, f if f in (2, 4, 12) else 5])
+        return kind, list(range(a, b + 1, step)), rng.choice(["Span", "Span", "tuple"])
+    if kind == "descending":
+        return kind, list(range(b, a - 1, -1)), rng.choice(["Span", "Span", "tuple"])
+    if kind == "descending-stepped":
+        step = rng.choice([2, 3, 4])
+        return kind, list(range(b, a - 1, -step)), rng.choice(["Span", "Span", "tuple"])
+    pool = list(range(a, b + 1))
+    pick = rng.sample(pool, rng.randint(1, len(pool)))
+    if kind == "hand-picked":
+        pick.sort()
+    return kind, pick, rng.choice(["tuple", "list"])
+
+
+def _f_span_argument(f, serials, how):
+    import irispie as ir
+    if serials is None:
+        return ...
+    ps = [sc.mk_period(f, t) for t in serials]
+    if how == "Span" and len(ps) >= 1:
+        step = (serials[1] - serials[0]) if len(serials) > 1 else 1
+        sp = ir.Span(ps[0], ps[-1], step)
+        if [int(p.serial) for p in sp] == list(serials):
+            return sp
+    return tuple(ps) if how != "list" else list(ps)
+
+
+def _falsify_round5(ctx, rng, add, info, fails):
+    """7. CSV export of a databox on SELECTED spans (span= / frequency_span= with any iterable of periods per
+    frequency: Span objects with a step, descending spans, hand-picked periods, spans wider or narrower than the
+    data; several frequencies in one sheet): (a) in the file, next to every written date stand the (rounded) values
+    the series have AT THAT DATE, and the written dates are exactly the selected periods; (b) the databox read back
+    has, for every exported series, the (rounded) original values on the selected periods and no other
+    observations."""
+    import irispie as ir
+    from irispie.dates import Period, Frequency
+    path = str(ctx.work / "falsify5.csv")
+
+    def quiet(fn, *a, **k):
+        with warnings.catch_warnings():
+            warnings.simplefilter("ignore")
+            return fn(*a, **k)
+
+    n = ctx.scale(220, 4000)
+    info["csv_selected_span_roundtrips"] = 0
+    info["csv_selected_span_kinds"] = {}
+    info["csv_selected_span_cells"] = 0
+    for it in range(n):
+        spec = _plain_db(rng, nfreq=rng.choice([1, 1, 2, 3, 4]))
+        for _, s_ in spec:                       # longer series: interior periods exist for every step
+            if rng.random() < 0.5:
+                extra = rng.randint(2, 9)
+                s_["rows"] = s_["rows"] + [[float("nan") if rng.random() < 0.15 else rand_value(rng)
+                                            for _ in range(s_["nv"])] for _ in range(extra)]
+                if all(math.isnan(v) for v in s_["rows"][-1]):
+                    s_["rows"][-1][0] = rand_value(rng)
+        present = sorted({s_["freq"] for _, s_ in spec})
+        lo = {f: min(s_["start"] for _, s_ in spec if s_["freq"] == f) for f in present}
+        hi = {f: max(s_["start"] + len(s_["rows"]) - 1 for _, s_ in spec if s_["freq"] == f) for f in present}
+        use_span = len(present) == 1 and rng.random() < 0.5 or rng.random() < 0.1
+        sel = {}                                   # frequency -> (kind, serials or None, how)
+        if use_span:
+            f = rng.choice(present)
+            k_ = _f_selected_periods(rng, f, lo[f], hi[f])
+            while k_[1] is None or not k_[1]:
+                k_ = _f_selected_periods(rng, f, lo[f], hi[f])
+            sel[f] = k_
+        else:
+            fl = [f for f in present if rng.random() < 0.85] or [present[0]]
+            rng.shuffle(fl)
+            for f in fl:
+                k_ = _f_selected_periods(rng, f, lo[f], hi[f])
+                if k_[1] is not None and not k_[1]:
+                    k_ = ("default", None, "...")
+                sel[f] = k_
+        rnd = rng.choice([12, 12, None, 3])
+        inp = {"db": spec, "argument": "span" if use_span else "frequency_span",
+               "selected": {str(f): {"kind": k, "periods": ps, "passed_as": how} for f, (k, ps, how) in sel.items()},
+               "delimiter": rng.choice([",", ",", ";"]), "round": rnd, "description_row": rng.random() < 0.4,
+               "nan_str": rng.choice(["", "NaN", "NA"]), "names": None}
+        if rng.random() < 0.2:
+            inp["names"] = [k_ for k_, _ in spec if rng.random() < 0.7] or [spec[0][0]]
+        kw = {} if inp["names"] is None else {"names": list(inp["names"])}
+        if use_span:
+            f0 = next(iter(sel))
+            kw["span"] = _f_span_argument(f0, sel[f0][1], sel[f0][2])
+        else:
+            kw["frequency_span"] = {Frequency(f): _f_span_argument(f, ps, how) for f, (k, ps, how) in sel.items()}
+        repro = (f"db.to_csv_file(f, {inp['argument']}=<selected>, delimiter={inp['delimiter']!r}, round={rnd}, "
+                 f"description_row={inp['description_row']}, nan_str={inp['nan_str']!r}{', names=names' if inp['names'] else ''}); "
+                 f"Databox.from_csv_file(f, delimiter={inp['delimiter']!r}, description_row={inp['description_row']})")
+        info["csv_selected_span_roundtrips"] += 1
+        for f, (k, ps, how) in sel.items():
+            _bump(info["csv_selected_span_kinds"], k)
+        worst = lambda: next((k for k in ("hand-picked-unordered", "descending-stepped", "descending", "hand-picked", "stepped",
+                                          "contiguous", "default") if any(v[0] == k for v in sel.values())), "default")
+        try:
+            db = mk_db(spec)
+            quiet(db.to_csv_file, path, delimiter=inp["delimiter"], round=rnd, description_row=inp["description_row"],
+                  nan_str=inp["nan_str"], **kw)
+            grid = read_grid(path, inp["delimiter"])
+            back = quiet(ir.Databox.from_csv_file, path, delimiter=inp["delimiter"], description_row=inp["description_row"])
+        except Exception as e:  # noqa
+            add(f"csv:selected-span:roundtrip-raises:{worst()}",
+                f"CSV round trip on a selected span raises {type(e).__name__}: {e}"[:200], inp,
+                f"{type(e).__name__}: {e}"[:200], "the sheet and the databox read back", repro)
+            continue
+        exported = {nm: s_ for nm, s_ in spec if s_["freq"] in sel and (inp["names"] is None or nm in inp["names"])}
+        periods_of = {}
+        for f, (k, ps, how) in sel.items():
+            if ps is None:
+                members = [s_ for s_ in exported.values() if s_["freq"] == f]
+                ps = (list(range(min(s_["start"] for s_ in members), max(s_["start"] + len(s_["rows"]) for s_ in members)))
+                      if members else [])
+            periods_of[f] = list(ps)
+
+        def orig_row(s_, t):
+            i = t - s_["start"]
+            row = s_["rows"][i] if 0 <= i < len(s_["rows"]) else [float("nan")] * s_["nv"]
+            return [float(x) if (rnd is None or x != x) else float(np.round(np.float64(x), rnd)) for x in row]
+
+        # (a) the sheet: block by block, row by row
+        nh = 1 + int(inp["description_row"])
+        header = grid[0] if grid else []
+        marks = [c for c, x in enumerate(header) if x.startswith("__")]
+        seen_freqs = set()
+        bad = False
+        for c in marks:
+            f = {"__" + m.name.lower() + "__": int(m) for m in Frequency}.get(header[c])
+            if f is None or f not in sel:
+                continue
+            seen_freqs.add(f)
+            kind = sel[f][0]
+            cols = []                                  # (name, [column indices])
+            j = c + 1
+            while j < len(header) and header[j] != "" and not header[j].startswith("__"):
+                if header[j] == "*" and cols:
+                    cols[-1][1].append(j)
+                else:
+                    cols.append((header[j], [j]))
+                j += 1
+            dates = [r[c] for r in grid[nh:] if c < len(r) and r[c] != ""]
+            want_dates = [str(sc.mk_period(f, t)) for t in periods_of[f]]
+            if dates != want_dates:
+                add(f"csv:selected-span:dates:{worst()}", f"the dates written for frequency {f} are not the selected periods",
+                    inp, dates, want_dates, repro)
+                bad = True
+                continue
+            for r, t in zip([r for r in grid[nh:] if c < len(r) and r[c] != ""], periods_of[f]):
+                for nm, cc in cols:
+                    if nm not in exported:
+                        continue
+                    info["csv_selected_span_cells"] += len(cc)
+                    got = [float("nan") if r[x] == inp["nan_str"] else _tofloat(r[x]) for x in cc]
+                    want = orig_row(exported[nm], t)
+                    if len(got) != len(want) or not _same_values(got, want):
+                        add(f"csv:selected-span:cell-values:{kind}",
+                            f"in the sheet, the values of {nm!r} next to the date {r[c]} are not its values at that period",
+                            inp, {"date": r[c], "name": nm, "written": got}, {"date": r[c], "name": nm, "values": want}, repro)
+                        bad = True
+                        break
+                if bad:
+                    break
+        missing_blocks = sorted(f for f in sel if f not in seen_freqs and any(s_["freq"] == f for s_ in exported.values()))
+        if missing_blocks and not bad:
+            add(f"csv:selected-span:block-missing:{worst()}", "a selected frequency with series has no block in the sheet", inp,
+                sorted(seen_freqs), sorted(f for f in sel if any(s_["freq"] == f for s_ in exported.values())), repro)
+            bad = True
+        if bad:
+            if len(fails) > 12:
+                return
+            continue
+        # (b) the databox read back
+        if sorted(back.keys()) != sorted(exported):
+            add(f"csv:selected-span:names:{worst()}", "names differ after the CSV round trip on a selected span", inp,
+                sorted(back.keys()), sorted(exported), repro)
+            continue
+        for nm, s_ in exported.items():
+            f = s_["freq"]
+            kind = sel[f][0]
+            y = back[nm]
+            ps = periods_of[f]
+            want = {t: orig_row(s_, t) for t in ps}
+            obs = [t for t in ps if not all(v != v for v in want[t])]
+            if y.num_variants != s_["nv"]:
+                add(f"csv:selected-span:variants:{kind}", f"number of variants of {nm!r} differs after the CSV round trip", inp,
+                    y.num_variants, s_["nv"], repro)
+                break
+            if not obs:
+                if y.start is not None and not np.all(np.isnan(y.data)):
+                    add(f"csv:selected-span:values:{kind}", f"{nm!r} has no observation on the selected periods but comes back with some",
+                        inp, y.data.tolist(), "no observations", repro)
+                    break
+                continue
+            if int(y.frequency) != f or int(y.start.serial) != min(obs) or int(y.end.serial) != max(obs):
+                add(f"csv:selected-span:span:{kind}", f"frequency/span of {nm!r} after the CSV round trip is not that of its "
+                    "observations on the selected periods", inp,
+                    [int(y.frequency), int(y.start.serial), int(y.end.serial)], [f, min(obs), max(obs)], repro)
+                break
+            got_rows = {t: y.data[t - int(y.start.serial)].tolist() for t in range(min(obs), max(obs) + 1)}
+            wrong = [t for t in got_rows
+                     if not _same_values(got_rows[t], want[t] if t in want else [float("nan")] * s_["nv"])]
+            if wrong:
+                t = wrong[0]
+                add(f"csv:selected-span:values:{kind}",
+                    f"value of {nm!r} at {sc.mk_period(f, t)} differs after the CSV round trip on the selected periods "
+                    "(original value on a selected period, missing on the others)", inp,
+                    {"period": str(sc.mk_period(f, t)), "read_back": got_rows[t]},
+                    {"period": str(sc.mk_period(f, t)), "original": want.get(t, "missing (period not selected)")}, repro)
+                break
+            if inp["description_row"] and y.get_description() != s_["desc"]:
+                add(f"csv:selected-span:description:{kind}", f"description of {nm!r} differs after the CSV round trip", inp,
+                    y.get_description(), s_["desc"], repro)
+                break
         if len(fails) > 12:
             return
 
